@@ -79,6 +79,30 @@ class cpu_limit:
         return False
 
 
+def budget_outcome(module, kind, case, seconds):
+    """A case ran out of its CPU budget.  The budget covers the reference model and the classification work of the
+    check as well as the engine: when the check offers `engine_only(kind, case)` the engine's share is run again on its
+    own under the same budget, and only an overrun of THAT run is reported as a hang of the engine."""
+    out = Outcome()
+    engine_only = getattr(module, 'engine_only', None)
+    if engine_only is not None:
+        try:
+            with cpu_limit(seconds):
+                engine_only(kind, case)
+        except CpuBudget:
+            pass
+        except Exception:      # the engine answered (with an error): not a hang
+            out.nontrivial = False
+            out.dim('undecided', 'cpu-budget-spent-by-the-harness')
+            return out
+        else:
+            out.nontrivial = False
+            out.dim('undecided', 'cpu-budget-spent-by-the-harness')
+            return out
+    out.fail('%s/hang/%s' % (module.PROPERTY, kind), 'case exceeded %.0fs CPU' % seconds)
+    return out
+
+
 def canon(obj):
     return json.dumps(obj, sort_keys=True, ensure_ascii=True, default=repr, separators=(',', ':'))
 
@@ -148,8 +172,7 @@ class Harness:
             with cpu_limit(cpu or CASE_CPU_S):
                 out = self.module.check_case(kind, case)
         except CpuBudget:
-            out = Outcome()
-            out.fail('%s/hang/%s' % (self.prop, kind), 'case exceeded %.0fs CPU' % (cpu or CASE_CPU_S))
+            out = budget_outcome(self.module, kind, case, cpu or CASE_CPU_S)
         except RecursionError:
             self._harness_error(kind, case)
             return None
@@ -437,8 +460,9 @@ def replay(module, path):
         fails = out.fails
         obs = out.obs
     except CpuBudget:
-        fails = [('%s/hang/%s' % (module.PROPERTY, kind), 'CPU budget exceeded')]
-        obs = None
+        bo = budget_outcome(module, kind, case, CASE_CPU_S)
+        fails = bo.fails
+        obs = 'CPU budget exceeded' + ('' if fails else ' by the harness; the engine alone answers in time')
     print('replay %s kind=%s' % (path, kind))
     print('case: %s' % canon(case))
     print('observed: %s' % (obs,))
